@@ -19,6 +19,7 @@ inductive Entry where
   | dangling                                     -- symlink to nothing
   | fifo
   | socket
+  | lockedDir                                    -- a directory that cannot be listed (no permission, path too long, vanished)
   deriving Inhabited
 
 inductive Ev where
@@ -54,6 +55,7 @@ def scanEntry (path : Bytes) : Entry → Nat → List Ev
   | .dangling, _ => []       -- cannot be opened: reported on stderr and skipped
   | .fifo, _ => []           -- not a regular file: skipped without opening (opening would block)
   | .socket, _ => []
+  | .lockedDir, _ => []      -- `os.ReadDir` fails: reported on stderr, the scan goes on with the next entry
 /-- the loop over the entries of one directory, in the order given -/
 def scanChildren (dir : Bytes) : List (Bytes × Entry) → Nat → List Ev
   | [], _ => []
@@ -86,6 +88,7 @@ def inspectArg (recursive : Bool) (cwd : List (Bytes × Entry)) (arg : Bytes) : 
   | some .linkDir => if recursive then .events [] else .fatal   -- target contents are outside the model
   | some (.file c) => .events [.report arg c]
   | some (.linkFile c) => .events [.report arg c]
+  | some .lockedDir => .fatal                       -- the argument itself cannot be listed (or is a directory without -r)
   | some .fifo => .events []                         -- explicit FIFO argument: read like a stream (outside the model)
   | some .socket => .events []
 
